@@ -24,7 +24,7 @@
     12  a plain peer cannot decode what Write emitted under the mask                     (oracle) *)
 From Coq Require Import List ZArith Bool NArith Lia.
 From Verif Require Import Base.Bytes Base.BE Wire.TType Wire.WVal Wire.Codec Wire.Schema Wire.Value Wire.Std
-  Wire.Masked Wire.MaskedHalfway Corr.C02.
+  Wire.Masked Wire.MaskedHalfway Wire.MaskedOwn Corr.C02.
 From Verif Require Mask.Path Mask.Desc Mask.Trie Mask.Spec.
 Import ListNotations.
 Open Scope Z_scope.
@@ -41,7 +41,11 @@ Inductive case :=
          (paths : option (list bytes)) (ps : list (list Mask.Spec.pseg))
          (zero_init : bool) (input : bytes) (src : option value)
          (omaskerr : bool) (oerr : obs_err) (odump : value)
-         (plain_err : obs_err) (plain_dump : value).
+         (plain_err : obs_err) (plain_dump : value)
+(* a mask set by the user on the sub object reached through the struct-typed fields [path] *)
+| CMOwn (sname : bytes) (cfg : mcfg) (black : bool) (paths : option (list bytes))
+        (path : list Z) (black2 : bool) (paths2 : option (list bytes))
+        (v : value) (omaskerr : bool) (oerr : obs_err) (obytes : bytes).
 
 Definition token_eqb (a b : Mask.Path.token) : bool :=
   match a, b with
@@ -109,6 +113,18 @@ Definition top_presence (e : env) (s : sschema) (black : bool) (psn : list Mask.
                         if is_required f then on
                         else Bool.eqb on (present f (snd p) && ps_pass black psn (QF (f_id f)))
                     | None => true end) fs.
+
+(* the struct-like a path of field ids leads to *)
+Fixpoint struct_at (e : env) (s : sschema) (path : list Z) : option sschema :=
+  match path with
+  | [] => Some s
+  | id :: rest =>
+      match find_field id (s_fields s) with
+      | Some f => match f_ty f with
+                  | TRef n => match find_struct e n with Some s' => struct_at e s' rest | None => None end
+                  | _ => None end
+      | None => None end
+  end.
 
 Definition check (e : env) (c : case) : list N :=
   match c with
@@ -233,6 +249,34 @@ Definition check (e : env) (c : case) : list N :=
                | None => if err_class_eqb oerr plain_err && (negb (err_class_eqb oerr OOk) || veq_mod odump plain_dump)
                          then [] else [10%N]
                | Some _ => [] end)
+          end
+      end
+  | CMOwn sname cfg black paths path black2 paths2 v omaskerr oerr obytes =>
+      match find_struct e sname with
+      | None => [8%N]
+      | Some s =>
+          match struct_at e s path with
+          | None => [8%N]
+          | Some s2 =>
+              match model_mask e s black paths, model_mask e s2 black2 paths2 with
+              | Some m, Some m2 =>
+                  if omaskerr then [1%N] else
+                  (match write_with_own cfg m path m2 e s v with
+                   | Ok r =>
+                       match oerr with
+                       | OOk => match dec_full obytes with
+                                | Some w' => if counts_ok r && weq_mod false (cook r) w' then [] else [1%N]
+                                | None => [1%N] end
+                       | _ => [1%N] end
+                   | Err (EUnionCount _) | Err ESetDup => if is_err oerr then [] else [1%N]
+                   | Err ENilUnion => match oerr with OPanic => [] | _ => [1%N] end
+                   | Err _ => [8%N]
+                   end) ++
+                  (match oerr with
+                   | OOk => match dec_full obytes with Some (WStruct _) => [] | _ => [2%N] end
+                   | _ => [] end)
+              | _, _ => if omaskerr then [] else [1%N]
+              end
           end
       end
   end.
